@@ -1,6 +1,7 @@
 mod common;
 mod c12;
 mod c13;
+mod c14;
 mod c15;
 mod c20;
 
@@ -14,6 +15,7 @@ fn main() {
     let code = match which.to_ascii_lowercase().as_str() {
         "c12" => c12::run(opts),
         "c13" => c13::run(opts),
+        "c14" => c14::run(opts),
         "c15" => c15::run(opts),
         "c20" => c20::run(opts),
         other => {
